@@ -364,6 +364,43 @@ def r19f(ctx, rep, cr):
     rep.floor('R19f', 'reference recount sites', n, 1)
 
 
+def r19g(ctx, rep, cr):
+    rep.rule('R19g', 'verification judges the bytes that get() would return: in integrity::verify_artifact and integrity::verify_chunk every '
+                     'Ok(..) verdict is computed from a hash taken over chunk payloads (its def-use slice contains StreamingHasher::finalize '
+                     'or chunker::compute_hash fed from `_data`). A verdict derived from names alone — the hash inside the chunk key compared '
+                     'with the recorded checksum — says what the bytes were when they were written, not what is stored now')
+    n = 0
+    for nm in ('tensor_blob::integrity::verify_artifact', 'tensor_blob::integrity::verify_chunk'):
+        f = rep.require_fn('R19g', cr, nm)
+        if f is None:
+            continue
+        defs = A.Defs(f)
+        for i, b in enumerate(f.bbs):
+            if b['cleanup']:
+                continue
+            for st in b['s']:
+                rv = st[1]
+                if rv[0] != 'agg' or not rv[1].endswith('Result::Ok') or st[0][1]:
+                    continue
+                # only verdicts: an Ok that reaches the return slot
+                if st[0][0] != 0 and not any(s2[0] == [0, []] and s2[1][0] == 'use' and s2[1][1][0] in ('c', 'm') and s2[1][1][1][0] == st[0][0]
+                                              for b2 in f.bbs for s2 in b2['s']):
+                    continue
+                n += 1
+                rep.analysed(f)
+                op = rv[2][0] if rv[2] else None
+                hashed = False
+                if op is not None and op[0] != 'k':
+                    sl = A.backward_slice(f, [op], defs)
+                    hashed = any(re.search(r'StreamingHasher::finalize$|chunker::compute_hash$', x) for x in sl.calls)
+                if hashed:
+                    rep.holds('R19g', f, 'verdict@%d' % st[2], 'computed from a payload hash')
+                else:
+                    rep.violation('R19g', f, 'verdict-without-payload-hash', f.loc(st[2]),
+                                  'a verdict is returned that does not depend on a hash of the stored payload: altered chunk bytes verify as intact')
+    rep.floor('R19g', 'verdicts of the verifiers', n, 2)
+
+
 def run(ctx, rep):
     cr = ctx.crate('tensor_blob')
     cg = ctx.callgraph(['tensor_blob'])
@@ -373,3 +410,4 @@ def run(ctx, rep):
     r19d(ctx, rep, cr)
     r19e(ctx, rep, cr)
     r19f(ctx, rep, cr)
+    r19g(ctx, rep, cr)
